@@ -52,7 +52,7 @@ class Prop:
             '1064; encode_msg/encode_dict of all 35 classes with maximal binary/text content; each output is compared '
             'with the Lean model, checked against the well-formedness conditions of the property, and fed back to '
             'pyais.decode (must be accepted and decode like the payload bits); non-trivial = more than one fragment '
-            'or non-zero fill')
+            'or non-zero fill ; requests that cannot be served (talker / channel of the wrong shape) must be refused; hand-made pipeline (to_bitarray + encode_ascii_6 + ais_to_nmea_0183) and a message object changed between two encodings agree with encode_msg; one bit vector armored twice')
     assumptions = []
 
     def run(self, ctx):
